@@ -200,7 +200,15 @@ func (sidEngine) Run(ctx *fw.Ctx, cs any) {
 						if rep%2 == 1 {
 							opts = append(opts, pkt.O4(55, 1, 3, 54, 66, 67))
 						}
-						opts = append(opts, noise4(rng, true, true)...)
+						override := ""
+						if rep >= 2 && rng.Intn(2) == 0 {
+							// the relay's Server Identifier Override sub-option (RFC 5107) names an address; whichever
+							// it is, the identifier this server announces and accepts is the configured one
+							ov := vals[[]string{"other", "own", "other"}[rng.Intn(3)]]
+							opts = append(opts, pkt.O4(82, 1, 2, 'p', '1', 11, 4, ov[0], ov[1], ov[2], ov[3]))
+							override = fmt.Sprintf(" relay-server-id-override=%s", net.IP(ov))
+						}
+						opts = append(opts, noise4(rng, override == "", true)...)
 						p := pkt.Request4(xid, []byte{2, 0, 0, 0, byte(rep), byte(xid)}, mt, opts...)
 						if sn != "absent" {
 							copy(p.Si[:], vals[sn])
@@ -208,12 +216,13 @@ func (sidEngine) Run(ctx *fw.Ctx, cs any) {
 						p.Gi = pkt.IP4("10.9.9.9")
 						drop := sn == "other" || on == "other"
 						job.Reqs = append(job.Reqs, ChainReq{Hex: hex.EncodeToString(p.Bytes()), RxIf: fakeIf, Peer: "10.9.9.9", Port: 67})
-						meta = append(meta, sidReq{desc: fmt.Sprintf("type=%d siaddr=%s option54=%s", mt, sn, on), wantDrop: drop, crashOnly: on == "zero" && sn != "other"})
+						meta = append(meta, sidReq{desc: fmt.Sprintf("type=%d siaddr=%s option54=%s%s", mt, sn, on, override), wantDrop: drop, crashOnly: on == "zero" && sn != "other"})
 					}
 				}
 			}
 		}
 	}
+	job.LogLevel = caseLogLevel(c.Seed)
 	out := RunChain(job, ctx.Scratch, 120*time.Second)
 	if out.SetupErr != "" {
 		ctx.Viol("C14", "setup-rejects-valid", "%s: setup refused an accepted spelling: %s", conf, out.SetupErr)
